@@ -39,6 +39,11 @@ def gen_plan(rng) -> dict:
     # equal-valued documents built twice are the sharpest probe for sharing
     if rng.random() < 0.35:
         recs.append(json_copy(rng.choice(recs)))
+    # documents whose CONSTRUCTION raises (rejected configuration) are history steps too
+    if rng.random() < 0.3:
+        bad = make_invalid(rng, json_copy(rng.choice(recs)))
+        if bad is not None:
+            recs.append(bad)
     share_p = rng.choice([0.0, 0.3, 0.8])
     fault_mode = rng.choice(["none", "none", "natural", "abort", "both"])
     if fault_mode in ("none", "abort"):
@@ -131,6 +136,32 @@ def json_copy(x):
     return json.loads(json.dumps(x))
 
 
+def make_invalid(rng, rec: dict):
+    """A recipe whose construction is rejected (ValueError somewhere in a component
+    or document validator); which one is up to the reference."""
+    how = rng.choice(["group_col", "new_page", "bad_colour", "bad_border", "fig_table_footnote", "bad_format"])
+    if rec["kind"] == "figure":
+        rec["footnote"] = {"text": "x", "as_table": True}
+        return rec
+    if not rec.get("bodies"):
+        return None
+    b = rec["bodies"][0]
+    if how == "group_col":
+        b["group_by"] = ["no_such_column"]
+    elif how == "new_page":
+        b.pop("page_by", None)
+        b["new_page"] = True
+    elif how == "bad_colour":
+        b["text_color"] = "notacolour"
+    elif how == "bad_border":
+        rec["page"] = dict(rec.get("page") or {}, border_first="wobbly")
+    elif how == "bad_format":
+        b["text_format"] = [["q"]]
+    else:
+        rec["title"] = {"text": "t", "text_justification": ["x"]}
+    return rec
+
+
 def _has_broken_frame(rec) -> bool:
     for f in rec.get("dfs", []):
         v = f["cols"][0][2]
@@ -163,7 +194,7 @@ def exec_history(arg) -> dict:
     docs: dict = {}  # slot -> (doc, frames, recipe index)
     held_frames: list = []  # (frame object, spec) the caller holds
     log = []
-    pristine = state.sweep() if do_sweep else None
+    pristine = dict(state.sweep(), **{"<external: cwd/env/decimal/locale/...>": state.external_digest()}) if do_sweep else None
     s1_0 = state.s1_digest()
     steps_total = 0
 
@@ -292,7 +323,7 @@ def exec_history(arg) -> dict:
     out = {"log": log, "steps": steps_total, "shared_hits": pool.shared_hits,
            "hit_kinds": pool.hit_kinds, "s1_start": s1_0, "s1_end": state.s1_digest()}
     if do_sweep:
-        end = state.sweep()
+        end = dict(state.sweep(), **{"<external: cwd/env/decimal/locale/...>": state.external_digest()})
         out["movers"] = sorted(k for k in set(pristine) | set(end) if pristine.get(k) != end.get(k))
         out["sweep_size"] = len(end)
     return out
